@@ -23,9 +23,9 @@ theorem newIH_keep (c : Cfg) (src : Src) (skip : Bool) (cb : Option Nat) :
 
 macro "k_eq" : term => `((by exact Keep.of_eq rfl rfl rfl))
 macro "k_cons" : term => `((by exact Keep.cons _ rfl rfl rfl (by rfl)))
+macro "k_then" x:term : term => `((by refine Keep.trans ?_ $x; exact Keep.of_eq rfl rfl rfl))
 macro "brg" : term => `((by simp [Instr.boring]))
 
-set_option maxHeartbeats 1600000 in
 theorem step_facts (P : Prog) (c0 : Cfg) : StepFacts c0 (rcfg (step P c0)) := by
   unfold step
   split
@@ -65,33 +65,44 @@ theorem step_facts (P : Prog) (c0 : Cfg) : StepFacts c0 (rcfg (step P c0)) := by
       · exact facts_push hc _ brg s0 k0
       · exact facts_plain hc sr k_cons
     | gIter q mode =>
-      simp only
-      generalize hc2 : (if _ then _ else _ : Cfg) = c2
-      have hk2 : Keep c0 c2 ∧ c2.code = rest := by
-        subst hc2
+      have key : ∀ (mode' : Mode) (c2 : Cfg) (e : Nat), Keep c0 c2 → c2.code = rest → StepFacts c0 (rcfg (
+          match minPrio (c2.ctx q).ready with
+          | none =>
+            match mode' with
+            | .block => .error (.blocked, c2)
+            | .poll => if c2.A.readers = [] then .error (.livelock, c2) else .ok (c2.gtrace (.idle q e))
+            | .once => .ok (c2.gtrace (.idle q e))
+          | some p =>
+            .ok (push (c2.gtrace (.iter q e p (c2.ctx q).sources ((c2.ctx q).ready.filter fun g => g.sig.prio = p)))
+              (((c2.ctx q).ready.filter fun g => g.sig.prio = p).map fun g => .gDisp q e g)))) := by
+        intro mode' c2 e hk2 hcode2
         split
-        · exact ⟨(Keep.of_eq rfl rfl rfl).trans (deliverD_keep _), by rw [deliverD_code]; rfl⟩
-        · exact ⟨Keep.of_eq rfl rfl rfl, rfl⟩
-      split
-      · split
-        · exact facts_plain hc (by simp [hk2.2]) hk2.1
         · split
-          · exact facts_plain hc (by simp [hk2.2]) hk2.1
-          · exact facts_plain hc (by simp [hk2.2]) (hk2.1.trans k_cons)
-        · exact facts_plain hc (by simp [hk2.2]) (hk2.1.trans k_cons)
-      · rename_i p hp
-        obtain ⟨new, e, hq⟩ := hk2.1.tr
-        refine facts_gen hc ⟨hk2.1.handlers, hk2.1.fq, _ :: new, by simp [push, Cfg.gtrace, e], ?_⟩ ?_
-        · intro t ht hl
-          rcases List.mem_cons.1 ht with rfl | ht
-          · exact ⟨⟨mode, by simp [hc]⟩, hp, rfl⟩
-          · rw [hq t ht] at hl; cases hl
-        · intro i hi hb
-          simp only [push_code, gtrace_code, List.mem_append, List.mem_map] at hi
-          rcases hi with ⟨g, hg, rfl⟩ | hi
-          · right
-            exact ⟨⟨mode, by simp [hc]⟩, _, _, _, by simp [push, Cfg.gtrace], hg⟩
-          · left; rw [hk2.2] at hi; exact hi
+          · exact facts_plain hc (by simp [hcode2]) hk2
+          · split
+            · exact facts_plain hc (by simp [hcode2]) hk2
+            · exact facts_plain hc (by simp [hcode2]) (hk2.trans k_cons)
+          · exact facts_plain hc (by simp [hcode2]) (hk2.trans k_cons)
+        · rename_i p hp
+          obtain ⟨new, e', hq⟩ := hk2.tr
+          refine facts_gen hc ⟨hk2.handlers, hk2.fq, Tr.iter q e p (c2.ctx q).sources ((c2.ctx q).ready.filter fun g => g.sig.prio = p) :: new, by simp [push, Cfg.gtrace, e'], ?_⟩ ?_
+          · intro t ht hl
+            rcases List.mem_cons.1 ht with rfl | ht
+            · exact ⟨⟨mode, by simp [hc]⟩, hp, rfl⟩
+            · rw [hq t ht] at hl; cases hl
+          · intro i hi hb
+            simp only [rcfg_ok, push_code, gtrace_code, List.mem_append, List.mem_map] at hi
+            rcases hi with ⟨g, hg, rfl⟩ | hi
+            · right
+              exact ⟨⟨mode, by simp [hc]⟩, p, _, _, List.mem_cons_self, hg⟩
+            · left; rw [hcode2] at hi; exact hi
+      have hk2 : ∀ (b : Prop) [Decidable b] (c1 : Cfg), Keep c0 c1 → c1.code = rest →
+          Keep c0 (if b then c1.deliver.getD c1 else c1) ∧ (if b then c1.deliver.getD c1 else c1).code = rest := by
+        intro b _ c1 h1 h2
+        split
+        · exact ⟨h1.trans (deliverD_keep _), by rw [deliverD_code]; exact h2⟩
+        · exact ⟨h1, h2⟩
+      exact key mode _ _ (hk2 _ _ k_eq rfl).1 (hk2 _ _ k_eq rfl).2
     | gDisp q e g =>
       simp only
       split
@@ -100,7 +111,7 @@ theorem step_facts (P : Prog) (c0 : Cfg) : StepFacts c0 (rcfg (step P c0)) := by
         · exact facts_plain hc sr k_cons
         · split
           · exact facts_plain hc sr k_cons
-          · refine facts_gen hc ((KeepL.loud (X := (({ c0 with code := rest } : Cfg).setInCall q g.id true).gtrace (.disp q e g)) (.disp q e g) (by simp [LoudOK, hc]) rfl rfl rfl).trans k_cons) ?_
+          · refine facts_gen hc ((KeepL.loud (c0 := c0) (X := (({ c0 with code := rest } : Cfg).setInCall q g.id true).gtrace (.disp q e g)) (.disp q e g) (by simp [LoudOK, hc]) rfl rfl rfl).trans k_cons) ?_
             intro i hi hb
             simp [push] at hi
             rcases hi with rfl | rfl | hi
@@ -155,11 +166,11 @@ theorem step_facts (P : Prog) (c0 : Cfg) : StepFacts c0 (rcfg (step P c0)) := by
       | user hid =>
         refine facts_gen hc ((kl.trans (emit_keep P _ _)).trans k_eq) ?_
         intro i hi hb
-        simp only [push_code, List.mem_append, emit_code] at hi
-        rcases hi with (hi | hi) | hi
-        · rw [boring_acts _ i hi] at hb; cases hb
-        · simp at hi; subst hi; cases hb
-        · exact Or.inl hi
+        rcases List.mem_append.1 hi with h | h
+        · rcases List.mem_append.1 h with h | h
+          · rw [boring_acts _ i h] at hb; cases hb
+          · simp at h; subst h; cases hb
+        · exact Or.inl (by simpa using h)
       | render => exact facts_gen hc (kl.trans k_eq) (fun i hi hb => by simp [push] at hi; rcases hi with rfl | hi; cases hb; exact Or.inl hi)
       | close => exact facts_gen hc (kl.trans k_eq) (fun i hi hb => by simp [push] at hi; rcases hi with rfl | hi; cases hb; exact Or.inl hi)
       | itm => exact facts_gen hc (kl.trans k_eq) (fun i hi hb => by simp [push] at hi; rcases hi with rfl | hi; cases hb; exact Or.inl hi)
@@ -188,7 +199,8 @@ theorem step_facts (P : Prog) (c0 : Cfg) : StepFacts c0 (rcfg (step P c0)) := by
       simp only
       split
       · exact facts_plain hc s0 k0
-      · exact facts_bind_push hc (enqueue_good _ _) sr k_cons _ (fun c => ⟨rfl, Keep.of_eq rfl rfl rfl⟩) _ brg
+      · have hg := enqueue_good (({ c0 with code := rest, L := { c0.L with ctxs := c0.L.ctxs ++ [({} : Ctx)], loops := c0.L.loops ++ [c0.L.ctxs.length] } } : Cfg).trace (.openLevel c0.L.ctxs.length true)) s
+        exact facts_bind_push hc hg sr k_cons (fun c => c.setCtx c0.L.ctxs.length fun x => { x with running := true }) (fun c => ⟨rfl, Keep.of_eq rfl rfl rfl⟩) [.gRun c0.L.ctxs.length] brg
     | closeLoop =>
       simp only
       split
@@ -212,11 +224,14 @@ theorem step_facts (P : Prog) (c0 : Cfg) : StepFacts c0 (rcfg (step P c0)) := by
         · exact facts_push hc _ brg s0 k0
         · exact facts_push hc _ brg s0 k0
     | closeScreen3 e =>
-      refine facts_good hc (c1 := { c0 with code := rest }) (Good.bind ?_ fun c1 => ?_) s0 k0
-      · split
-        · exact redraw_good _
+      simp only
+      split
+      · refine facts_good hc (c1 := { c0 with code := rest }) (Good.bind (redraw_good _) fun c1 => ?_) s0 k0
+        split
+        · exact raise_good _ _
         · exact Good.ok _ _ sr (Keep.refl _)
-      · split
+      · refine facts_good hc (c1 := { c0 with code := rest }) (Good.bind (Good.ok _ _ sr (Keep.refl _)) fun c1 => ?_) s0 k0
+        split
         · exact raise_good _ _
         · exact Good.ok _ _ sr (Keep.refl _)
     | processScreen =>
@@ -262,7 +277,7 @@ theorem step_facts (P : Prog) (c0 : Cfg) : StepFacts c0 (rcfg (step P c0)) := by
       · exact facts_push hc _ brg s0 k0
       · exact facts_plain hc s0 k0
     | callScr scr cb arg key =>
-      refine facts_push hc _ ?_ (by simp) ((Keep.of_eq rfl rfl rfl).trans (emit_keep P _ _))
+      refine facts_push hc _ ?_ (by simp) (k_then (emit_keep P _ _))
       intro i hi
       simp only [List.mem_append] at hi
       rcases hi with (hi | hi) | hi
@@ -296,9 +311,9 @@ theorem step_facts (P : Prog) (c0 : Cfg) : StepFacts c0 (rcfg (step P c0)) := by
       simp only
       split
       · exact facts_plain hc sr k_eq
-      · exact facts_good hc (startRequest_good _ _ _ _) sr ((Keep.of_eq rfl rfl rfl).trans (newIH_keep _ _ _ _).1)
+      · exact facts_good hc (startRequest_good _ _ _ _) sr (k_then (newIH_keep _ _ _ _).1)
     | blockingInput scr cont =>
-      exact facts_good' hc (startRequest_good _ _ _ _) [_] brg sr ((Keep.of_eq rfl rfl rfl).trans ((newIH_keep _ _ _ _).1.trans (Keep.of_eq rfl rfl rfl)))
+      exact facts_good' hc (startRequest_good _ _ _ _) [.waitInput c0.A.ihs.length] brg (by exact sr) (by exact ⟨fun x hx => List.mem_append_left _ hx, rfl, [], rfl, by simp⟩)
     | waitInput ih =>
       simp only
       split
@@ -326,6 +341,7 @@ theorem step_facts (P : Prog) (c0 : Cfg) : StepFacts c0 (rcfg (step P c0)) := by
     | catchPI scr => exact facts_plain hc s0 k0
     | countAndAct scr =>
       simp only
+      generalize c0.A.setScr scr _ = A'
       split
       · exact facts_good hc (raise_good _ _) sr k_eq
       · split
